@@ -409,7 +409,9 @@ fn master(property: &str, out_path: &str) {
     rep.states = g.executions;
     rep.transitions = g.transitions;
     rep.executions = g.executions;
-    rep.distinct_outcomes = g.hashes.len() as u64;
+    // with real TLS the reproducibility hash is deliberately coarse; the outcome class (what the
+    // applications saw + datagram count + end time) then tells executions apart
+    rep.distinct_outcomes = g.hashes.len().max(g.outcomes.len()) as u64;
     rep.max_depth = g.per_family.values().map(|x| x.2 as u64).max().unwrap_or(0);
     rep.exhaustive = !g.capped;
     if g.capped {
